@@ -440,3 +440,7 @@ _reg(Profile(name="kbreak_fewnames", device="free", n_free_kernels=(4, 18), tmax
              p_gpu_annotation=0.5,
              kernel_names=("gemm_a", "gemm_b", "gemm_c", "relu", "ncclKernel_AllReduce", "ncclDevKernel_AllGather", "Memcpy DtoD (Device -> Device)",
                            "Memset (Device)", "conv", "bn", "softmax", "ncclKernel_x")))
+_reg(Profile(name="stack_tiny", tmax_choices=(4, 6, 8, 12, 20), n_ranks=(1, 2), n_threads=(1, 3), max_depth=5, max_children=4, p_zero_dur=0.12, p_identical=0.2,
+             p_launch=0.2, device="fifo", p_nonevents=0.2))
+_reg(Profile(name="stack_nozero", tmax_choices=(4, 6, 8, 12, 20, 110), n_ranks=(1, 2), n_threads=(1, 3), max_depth=5, max_children=4, p_zero_dur=0.0,
+             p_identical=0.25, p_launch=0.2, device="fifo", p_kernel_zero=0.0, p_nonevents=0.2))
